@@ -89,7 +89,8 @@ class Concretizer:
     def enc(self, v, heap=None):
         heap = heap if heap is not None else self.st.heap
         if isinstance(v, tuple) and v and v[0] == 'star':
-            return self.enc(v[1], heap)
+            j = self.enc(v[1], heap)
+            return {'t': 'star', 'v': j.get('v', [])}
         if v is VNone:
             return {'t': 'none'}
         if isinstance(v, VInt):
@@ -167,6 +168,16 @@ class Concretizer:
         raise Unsupported(f'cannot concretise {v!r}')
 
 
+def flat_args(js):
+    out = []
+    for j in js:
+        if j.get('t') == 'star':
+            out.extend(j['v'])
+        else:
+            out.append(j)
+    return out
+
+
 def wrap(k):
     from .engine import wrap_const
     return wrap_const(k)
@@ -225,9 +236,9 @@ def same(pred, nat, path=''):
     return []
 
 
-def build_job(res, outcome_state, model):
+def build_job(res, outcome_state, model, engine=None):
     """JSON job for native_run from the entry state + the path's call script under `model`."""
-    ex, spec = res.engine, res.spec
+    ex, spec = (engine or res.engine), res.spec
     entry = ex.entry_state
     final = outcome_state
     cz = Concretizer(model, final, ex)
@@ -259,7 +270,7 @@ def build_job(res, outcome_state, model):
         ent = {'key': c['key'], 'recv_addr': recv_addr, 'recv_is_obj': recv_addr is not None,
                'ret': cz.enc(c['ret']) if c.get('ret') is not None else {'t': 'none'},
                'sets': {f: cz.enc(v) for f, v in c.get('sets', {}).items()},
-               'args': [cz.enc(a) for a in c.get('args', [])], 'line': c.get('line')}
+               'args': flat_args([cz.enc(a) for a in c.get('args', [])]), 'line': c.get('line')}
         if c.get('exc') is not None:
             ent['exc'] = cz.enc(c['exc'])
         script.append(ent)
@@ -338,6 +349,7 @@ REAL_IMPLS = {
     'decode_ascii': _decode('ascii'), 'decode_utf8': _decode('utf-8'),
     'encode_utf8': lambda s_: s_.encode('utf-8'), 'utf8': lambda s_: s_.encode('utf-8'),
     'zeros': lambda n: bytes(n) if 0 <= n < 10000 else None,
+    'join_b': lambda sep, items: bytes(sep).join(items),
 }
 
 
@@ -349,6 +361,20 @@ def _py_of(model, z):
         return z3.is_true(v)
     if z3.is_string_value(v):
         return _z3str(v)
+    if v.sort() == z3.SeqSort(BytesS):
+        items = []
+
+        def walk2(e):
+            k = e.decl().kind()
+            if k == z3.Z3_OP_SEQ_UNIT:
+                items.append(_py_of(model, e.arg(0)))
+            elif k == z3.Z3_OP_SEQ_CONCAT:
+                for c in e.children():
+                    walk2(c)
+            elif k != z3.Z3_OP_SEQ_EMPTY:
+                raise ValueError
+        walk2(v)
+        return items
     if v.sort() == BytesS:
         out = []
 
@@ -375,6 +401,11 @@ def _z3_of(val, sort):
         return z3.StringVal(val)
     if isinstance(val, (bytes, bytearray)):
         return bytes_const(bytes(val))
+    if isinstance(val, list) and all(isinstance(x, (bytes, bytearray)) for x in val):
+        if not val:
+            return z3.Empty(z3.SeqSort(BytesS))
+        us = [z3.Unit(bytes_const(bytes(x))) for x in val]
+        return us[0] if len(us) == 1 else z3.Concat(*us)
     raise ValueError
 
 
@@ -492,7 +523,7 @@ def prepare(res, outcome, extra=(), defs=True):
     if m is None:
         return {'status': 'no-model'}
     try:
-        job, cz = build_job(res, st, m)
+        job, cz = build_job(res, st, m, getattr(outcome, 'engine', None))
     except Unsupported as e:
         return {'status': 'inconclusive', 'diffs': ['concretise: ' + str(e)]}
     return {'job': job, 'cz': cz, 'model': m}
